@@ -61,7 +61,19 @@ def configs(tier, seed):
   return cfgs
 
 
-AGG_RULES = "agg.<env>.total (10) = sum app.<env>.*.count\nall.hits (60) = sum app.*.*.hits\n"
+# 'app.<env>.<host>.count' matches three rules with three different aggregate names, whose replica sets may overlap
+AGG_RULES = ("agg.<env>.total (10) = sum app.<env>.*.count\nall.hits (60) = sum app.*.*.hits\n"
+             "agg.<env>.byhost.<host> (10) = avg app.<env>.<host>.count\nall.count (60) = sum app.*.*.count\n")
+
+
+def expected_aggregates(name):
+  """Aggregate names the rules above give `name` (None = not covered by this little model)."""
+  p = name.split('.')
+  if len(p) == 4 and p[0] == 'app' and all(p) and p[3] == 'count':
+    return ['agg.%s.total' % p[1], 'agg.%s.byhost.%s' % (p[1], p[2]), 'all.count']
+  if len(p) == 4 and p[0] == 'app' and all(p) and p[3] == 'hits':
+    return ['all.hits']
+  return None
 
 
 def check_key(res, router, key, cell, configured, eligible, label):
@@ -149,6 +161,16 @@ def run_config(cfg, res):
             res.violation(cfg['router'] + '/outer', 'aggregated router output malformed for %r: %r / %r' % (key, o1, o2),
                           dict(key=key, cell=cell))
             break
+          aggs = expected_aggregates(key)
+          if aggs is not None:
+            want = set()
+            for a in aggs:
+              want |= set(target.getDestinations(a))
+            res.count('aggregated_names_with_several_aggregates', 1 if len(aggs) > 1 else 0)
+            if set(o1) != want:
+              res.violation(cfg['router'] + '/outer-union', 'aggregated router sends %r to %r, the union over its aggregate names %r is %r' % (
+                key, sorted(o1, key=str), aggs, sorted(want, key=str)), dict(key=key, cell=cell))
+              break
     # membership changes: the same structural oracle must hold for whatever set is configured *now*
     if ok and len(dests) >= 2:
       live = list(dests)
